@@ -1,0 +1,104 @@
+//! `cfg(raindb_verif)` accessors on [`DB`] (hook 3): structural views of the LSM shape.
+
+use std::sync::Arc;
+
+use crate::config::MAX_NUM_LEVELS;
+use crate::tables::Table;
+use crate::verif::{entry_of, VerifEntry, VerifFileMeta, VerifInfo};
+use crate::{Operation, RainDbIterator, ReadOptions};
+
+use super::DB;
+
+impl DB {
+    /// Per level, per file: number, size, smallest and largest key of the current version.
+    pub fn verif_layout(&self) -> Vec<Vec<VerifFileMeta>> {
+        let guard = self.guarded_fields.lock();
+        let version = guard.version_set.get_current_version();
+        let mut levels = vec![];
+        {
+            let node = version.read();
+            for level in 0..MAX_NUM_LEVELS {
+                let mut files = vec![];
+                for file in node.element.files[level].iter() {
+                    let s = file.smallest_key();
+                    let l = file.largest_key();
+                    files.push(VerifFileMeta {
+                        number: file.file_number(),
+                        size: file.get_file_size(),
+                        smallest: (
+                            s.get_user_key().to_vec(),
+                            s.get_sequence_number(),
+                            s.get_operation() == Operation::Put,
+                        ),
+                        largest: (
+                            l.get_user_key().to_vec(),
+                            l.get_sequence_number(),
+                            l.get_operation() == Operation::Put,
+                        ),
+                        allowed_seeks: file.allowed_seeks(),
+                    });
+                }
+                levels.push(files);
+            }
+        }
+        drop(version);
+        levels
+    }
+
+    /// All entries physically stored in table file `number`, in file order.
+    pub fn verif_file_entries(&self, number: u64) -> Result<Vec<VerifEntry>, String> {
+        let table = self
+            .table_cache
+            .find_table(number)
+            .map_err(|e| e.to_string())?;
+        let mut iter = Table::iter_with(Arc::clone(&table), ReadOptions::default());
+        iter.seek_to_first().map_err(|e| e.to_string())?;
+        let mut out = vec![];
+        while let Some((k, v)) = iter.current() {
+            out.push(entry_of(k, v));
+            iter.next();
+        }
+        Ok(out)
+    }
+
+    /// Internal counters and memtable contents.
+    pub fn verif_info(&self) -> VerifInfo {
+        let guard = self.guarded_fields.lock();
+        let mut live: Vec<u64> = guard.version_set.get_live_files().into_iter().collect();
+        live.sort_unstable();
+        let mut in_use: Vec<u64> = guard.tables_in_use.iter().copied().collect();
+        in_use.sort_unstable();
+        let dump = |it: &mut dyn RainDbIterator<Key = crate::key::InternalKey, Error = crate::RainDBError>| {
+            let mut out = vec![];
+            if it.seek_to_first().is_ok() {
+                while let Some((k, v)) = it.current() {
+                    out.push(entry_of(k, v));
+                    it.next();
+                }
+            }
+            out
+        };
+        let memtable_entries = dump(&mut *self.memtable().iter());
+        let immutable_entries = match guard.maybe_immutable_memtable.as_ref() {
+            Some(m) => dump(&mut *m.iter()),
+            None => vec![],
+        };
+        VerifInfo {
+            prev_sequence_number: guard.version_set.get_prev_sequence_number(),
+            version_wal_number: guard.version_set.get_curr_wal_number(),
+            version_prev_wal_number: guard.version_set.maybe_prev_wal_number(),
+            db_wal_number: guard.curr_wal_file_number,
+            manifest_number: guard.version_set.get_manifest_file_number(),
+            num_versions: guard.version_set.verif_num_versions(),
+            live_files: live,
+            tables_in_use: in_use,
+            has_immutable_memtable: guard.maybe_immutable_memtable.is_some(),
+            background_scheduled: guard.background_compaction_scheduled,
+            bad_state: guard.maybe_bad_database_state.as_ref().map(|e| e.to_string()),
+            num_snapshots_is_empty: guard.snapshots.is_empty(),
+            memtable_usage: self.memtable().approximate_memory_usage(),
+            memtable_entries,
+            immutable_entries,
+        }
+    }
+}
